@@ -34,10 +34,13 @@ import (
 type c04Call struct {
 	name string
 	do   func() (outcome string) // observable outcome of the call itself
+	want string                  // outcome the statement itself fixes ("" = only history-independence is judged)
 }
 
 func c04Fn(tag int) func(system.Collection) (system.Collection, error) {
-	return func(system.Collection) (system.Collection, error) { return system.Collection{system.Integer(int32(tag))}, nil }
+	return func(system.Collection) (system.Collection, error) {
+		return system.Collection{system.Integer(int32(tag))}, nil
+	}
 }
 
 func c04Outcome(e *fhirpath.Expression, err error) string {
@@ -53,22 +56,30 @@ func c04Outcome(e *fhirpath.Expression, err error) string {
 
 func c04Calls() []c04Call {
 	return []c04Call{
-		{"Compile(plain)", func() string { return c04Outcome(fhirpath.Compile("Patient.name.where(use = 'official').count()")) }},
-		{"Compile(a(), AddFunction a)", func() string { return c04Outcome(fhirpath.Compile("a()", compopts.AddFunction("a", c04Fn(1)))) }},
-		{"Compile(a(), AddFunction a') ", func() string { return c04Outcome(fhirpath.Compile("a()", compopts.AddFunction("a", c04Fn(2)))) }},
-		{"Compile(b(), AddFunction b)", func() string { return c04Outcome(fhirpath.Compile("b()", compopts.AddFunction("b", c04Fn(3)))) }},
-		{"Compile(where, AddFunction where)", func() string {
+		{name: "Compile(plain)", do: func() string { return c04Outcome(fhirpath.Compile("Patient.name.where(use = 'official').count()")) }},
+		{name: "Compile(a(), AddFunction a)", do: func() string { return c04Outcome(fhirpath.Compile("a()", compopts.AddFunction("a", c04Fn(1)))) }},
+		{name: "Compile(a(), AddFunction a') ", do: func() string { return c04Outcome(fhirpath.Compile("a()", compopts.AddFunction("a", c04Fn(2)))) }},
+		{name: "Compile(b(), AddFunction b)", do: func() string { return c04Outcome(fhirpath.Compile("b()", compopts.AddFunction("b", c04Fn(3)))) }},
+		{name: "Compile(where, AddFunction where)", want: "error", do: func() string {
 			return c04Outcome(fhirpath.Compile("Patient.name.where(true).count()", compopts.AddFunction("where", c04Fn(4))))
 		}},
-		{"Compile(join, AddFunction join)", func() string { return c04Outcome(fhirpath.Compile("join()", compopts.AddFunction("join", c04Fn(5)))) }},
-		{"Compile(join, Experimental)", func() string {
+		{name: "Compile(join, AddFunction join)", do: func() string { return c04Outcome(fhirpath.Compile("join()", compopts.AddFunction("join", c04Fn(5)))) }},
+		{name: "Compile(join, Experimental)", do: func() string {
 			return c04Outcome(fhirpath.Compile("Patient.name.given.join(',')", compopts.WithExperimentalFuncs()))
 		}},
-		{"Compile(AddFunction join + Experimental)", func() string {
+		{name: "Compile(AddFunction join + Experimental)", do: func() string {
 			return c04Outcome(fhirpath.Compile("join()", compopts.AddFunction("join", c04Fn(6)), compopts.WithExperimentalFuncs()))
 		}},
-		{"Compile(Permissive)", func() string { return c04Outcome(fhirpath.Compile("Patient.name.noSuchField", compopts.Permissive())) }},
-		{"patch.Compile", func() string {
+		// "built-in functions can be neither replaced nor altered": a name that is taken - by the base table, by the
+		// experimental table once it is switched on, or by an earlier option of the same call - is rejected
+		{name: "Compile(Experimental + AddFunction join)", want: "error", do: func() string {
+			return c04Outcome(fhirpath.Compile("Patient.name.given.join()", compopts.WithExperimentalFuncs(), compopts.AddFunction("join", c04Fn(8))))
+		}},
+		{name: "Compile(AddFunction tag twice)", want: "error", do: func() string {
+			return c04Outcome(fhirpath.Compile("tag()", compopts.AddFunction("tag", c04Fn(9)), compopts.AddFunction("tag", c04Fn(10))))
+		}},
+		{name: "Compile(Permissive)", do: func() string { return c04Outcome(fhirpath.Compile("Patient.name.noSuchField", compopts.Permissive())) }},
+		{name: "patch.Compile", do: func() string {
 			e, err := patch.Compile("Patient.name[0]")
 			if err != nil {
 				return "error"
@@ -79,7 +90,7 @@ func c04Calls() []c04Call {
 			}
 			return fmt.Sprintf("compiled;names=%d", len(p.Name))
 		}},
-		{"patch.Compile(AddFunction a, Transform)", func() string {
+		{name: "patch.Compile(AddFunction a, Transform)", do: func() string {
 			_, err := patch.Compile("a()", compopts.AddFunction("a", c04Fn(7)), compopts.Transform(func(e expr.Expression) expr.Expression { return e }))
 			return fmt.Sprint(err != nil)
 		}},
@@ -162,14 +173,14 @@ func TZDigest() []string {
 // ---- external engines (schedule explorer, race pass)
 
 type c04External struct {
-	Scenario    string   `json:"scenario"`
-	Executions  int64    `json:"executions"`
-	Points      []int    `json:"points_per_thread"`
-	Bound       int      `json:"preemption_bound"`
-	Exhaustive  bool     `json:"exhaustive"`
-	Outcomes    int      `json:"distinct_observation_vectors"`
-	Sites       int      `json:"distinct_sites"`
-	Findings    []struct {
+	Scenario   string `json:"scenario"`
+	Executions int64  `json:"executions"`
+	Points     []int  `json:"points_per_thread"`
+	Bound      int    `json:"preemption_bound"`
+	Exhaustive bool   `json:"exhaustive"`
+	Outcomes   int    `json:"distinct_observation_vectors"`
+	Sites      int    `json:"distinct_sites"`
+	Findings   []struct {
 		Key     string         `json:"key"`
 		Witness map[string]any `json:"witness"`
 	} `json:"findings"`
@@ -246,8 +257,8 @@ func init() {
 	scenarios := []string{"S1-where", "S1-select", "S1-all", "S1-now", "S1-env", "S1-isas", "S1-arith", "S1-custom", "S1-custom-nested", "S2-compile-addfunction", "S3-patch-shared-expression", "S4-evaluate-vs-compile-experimental", "S5-three-threads"}
 
 	core.Register(&core.Check{
-		ID: "C04",
-		Rule: "schedules: preemption-bounded depth-first exploration (bound 2 quick / 3 thorough, iterated 0,1,2,...) of every interleaving of 2-3 threads at the scheduling points the instrumenter inserts at every function entry, loop iteration and package-level variable access of the current tree (controlled cooperative scheduler, executions run to completion, prefix replay checked), for 13 scenarios (shared compiled expression x shared resource for every node kind, custom functions incl. nested calls, Compile with AddFunction/WithExperimentalFuncs in parallel, a shared patch expression on two resources, 3 threads); per execution: each thread's observation equals its isolated observation, no write to a package-level variable, inputs unchanged. Compile histories: every sequence of length <=3 (quick) / <=4 (thorough) over an 11-call alphabet (plain, AddFunction fresh/again/built-in name/experimental name, WithExperimentalFuncs, Permissive, patch.Compile, Transform): the observable Compile state (probe programs + reflective table snapshot) never leaves the initial state and each call's outcome equals its outcome in the empty history. Evaluate histories: every sequence of length <=2 (quick) / <=3 (thorough) over 66 (expression, resource, options) evaluations, two of them over a caller-owned collection that the whole history shares on shared compiled expressions: each result equals the isolated result and earlier results are unchanged afterwards. Process histories: every rotation of a 170-odd element alphabet, one fresh process each, so that every ordered pair of calls occurs with the first before the second; each outcome must equal the outcome of that call as the first call of a fresh process (catches process-wide memo tables and caches keyed too coarsely). Clock: now()/today()/timeOfDay() programs x 12 override instants denote exactly the override; the whole date/time battery gives identical results under TZ in {UTC, Asia/Kolkata, America/St_Johns, Pacific/Chatham}. A free-running -race pass of the scenario bodies (a sample of OS schedules, labelled as such) can only add violations; non-trivial = distinct (history | schedule, observation vector)",
+		ID:          "C04",
+		Rule:        "schedules: preemption-bounded depth-first exploration (bound 2 quick / 3 thorough, iterated 0,1,2,...) of every interleaving of 2-3 threads at the scheduling points the instrumenter inserts at every function entry, loop iteration and package-level variable access of the current tree (controlled cooperative scheduler, executions run to completion, prefix replay checked), for 13 scenarios (shared compiled expression x shared resource for every node kind, custom functions incl. nested calls, Compile with AddFunction/WithExperimentalFuncs in parallel, a shared patch expression on two resources, 3 threads); per execution: each thread's observation equals its isolated observation, no write to a package-level variable, inputs unchanged. Compile histories: every sequence of length <=3 (quick) / <=4 (thorough) over a 13-call alphabet (plain, AddFunction fresh/again/built-in name/experimental name, WithExperimentalFuncs, Permissive, patch.Compile, Transform): the observable Compile state (probe programs + reflective table snapshot) never leaves the initial state and each call's outcome equals its outcome in the empty history. Evaluate histories: every sequence of length <=2 (quick) / <=3 (thorough) over 66 (expression, resource, options) evaluations, two of them over a caller-owned collection that the whole history shares on shared compiled expressions: each result equals the isolated result and earlier results are unchanged afterwards. Process histories: every rotation of a 170-odd element alphabet, one fresh process each, so that every ordered pair of calls occurs with the first before the second; each outcome must equal the outcome of that call as the first call of a fresh process (catches process-wide memo tables and caches keyed too coarsely). Clock: now()/today()/timeOfDay() programs x 12 override instants denote exactly the override; the whole date/time battery gives identical results under TZ in {UTC, Asia/Kolkata, America/St_Johns, Pacific/Chatham}. A free-running -race pass of the scenario bodies (a sample of OS schedules, labelled as such) can only add violations; non-trivial = distinct (history | schedule, observation vector)",
 		Assumptions: []string{"scheduling points are function entries, loop iterations and package-variable accesses; finer-grained unsynchronised accesses are only seen by the free-running -race pass", "more than 3 threads and more than 3 preemptions are not explored"},
 		Subs: func(tier string) []core.Sub {
 			histLen, evLen := 3, 2
@@ -270,6 +281,9 @@ func init() {
 						out := calls[ci].do()
 						r.Eval()
 						hist = append(hist, calls[ci].name)
+						if calls[ci].want != "" && out != calls[ci].want {
+							r.Fail("compile-history|call-outcome-contradicts-the-statement|"+calls[ci].name, core.W{"history": hist, "outcome": out, "want": calls[ci].want})
+						}
 						if out != isolated[ci] {
 							r.Fail("compile-history|call-outcome-depends-on-history|"+calls[ci].name, core.W{"history": hist, "outcome": out, "outcome_in_empty_history": isolated[ci]})
 						}
